@@ -17,10 +17,11 @@ CONSTANTS M, N,          \* measurements x voxels
           Meas,          \* measurement values
           MaxIter,
           Betas,         \* beta_laplace as <<num, den>> index set: 0 => unconstrained SART
-          Relax          \* relaxation index set
+          Relax,         \* relaxation index set
+          LapKinds       \* kinds of regularisation matrix explored
 
-VARIABLES W, b, x0, relax, beta, k, x, conv, done
-vars == <<W, b, x0, relax, beta, k, x, conv, done>>
+VARIABLES W, b, x0, relax, beta, lap, k, x, conv, done
+vars == <<W, b, x0, relax, beta, lap, k, x, conv, done>>
 
 Rows == 1..M
 Cols == 1..N
@@ -34,9 +35,16 @@ RowSum(w, i) == SumR([j \in Cols |-> R(w[i][j])], N)
 ColSum(w, j) == SumR([i \in Rows |-> R(w[i][j])], M)
 YHat(w, xx) == [i \in Rows |-> SumR([j \in Cols |-> RMul(R(w[i][j]), xx[j])], N)]
 Dot(u, v, n) == SumR([i \in 1..n |-> RMul(u[i], v[i])], n)
-\* 1-D chain Laplacian: (L x)_l = C x_l - sum of the neighbours
-Lap(xx, l) == LET nb == {c \in Cols : c = l - 1 \/ c = l + 1} IN
-              RSub(RMul(R(Cardinality(nb)), xx[l]), SumR([c \in 1..N |-> IF c \in nb THEN xx[c] ELSE <<0, 1>>], N))
+\* the regularisation matrix of a 1-D chain of voxels, by kind:
+\*   "chain"   L_ll = number of neighbours, L_lc = -1 for neighbours            (symmetric)
+\*   "rownorm" L_ll = 1, L_lc = -1 / number of neighbours of l                  (rows normalised: not symmetric for N >= 3)
+\* the penalty of voxel l is (L x)_l = sum_c L_lc x_c  (row l of L, not column l)
+Nb(l) == {c \in Cols : c = l - 1 \/ c = l + 1}
+LMat(kind) == [l \in Cols |-> [c \in Cols |->
+                 IF c = l THEN (IF kind = "chain" THEN R(Cardinality(Nb(l))) ELSE IF Nb(l) = {} THEN R(0) ELSE R(1))
+                 ELSE IF c \in Nb(l) THEN (IF kind = "chain" THEN <<-1, 1>> ELSE RNorm(-1, Cardinality(Nb(l))))
+                 ELSE R(0)]]
+Lap(xx, l) == SumR([c \in 1..N |-> RMul(LMat(lap)[l][c], xx[c])], N)
 
 Update(w, bb, xx, rl, bt) ==
     LET yh == YHat(w, xx) IN
@@ -58,6 +66,7 @@ Init == /\ W \in [Rows -> [Cols -> Entries]]
         /\ \E i \in Rows : b[i] # 0                      \* conv is undefined for a zero measurement vector
         /\ x0 \in Guesses
         /\ relax \in Relax /\ beta \in Betas
+        /\ lap \in (IF beta = 0 THEN {"chain"} ELSE LapKinds)
         /\ k = 0 /\ x = x0 /\ conv = <<>> /\ done = FALSE
 
 Iterate ==
@@ -66,7 +75,7 @@ Iterate ==
     /\ conv' = Append(conv, Conv(W, b, x'))
     /\ k' = k + 1
     /\ done' = (k' = MaxIter \/ (k' >= 2 /\ RLess(RAbs(RSub(conv'[k'], conv'[k' - 1])), Tol)))
-    /\ UNCHANGED <<W, b, x0, relax, beta>>
+    /\ UNCHANGED <<W, b, x0, relax, beta, lap>>
 Next == Iterate
 Spec == Init /\ [][Next]_vars
 
@@ -78,5 +87,5 @@ ExactSolutionIsFixedPoint ==
 \* with a zero column the voxel nobody sees keeps its value in the unconstrained variant
 UnseenVoxelKeepsValue == beta = 0 => \A l \in Cols : ColSum(W, l)[1] = 0 => x[l] = x0[l]
 
-EmitFinal == done => PrintT(ToJson([W |-> W, b |-> b, x0 |-> x0, relax |-> RelaxVal(relax), beta |-> BetaVal(beta), iters |-> k, x |-> x, conv |-> conv]))
+EmitFinal == done => PrintT(ToJson([W |-> W, b |-> b, x0 |-> x0, relax |-> RelaxVal(relax), beta |-> BetaVal(beta), lap |-> lap, L |-> LMat(lap), iters |-> k, x |-> x, conv |-> conv]))
 =============================================================================
